@@ -474,8 +474,9 @@ func genCmd(r *gen.Rand, d *meta2.Data) Cmd {
 		return Cmd{K: "dropmst", DB: p.db, RP: p.rp, M: r.Range(1, 3), Ver: r.Intn(2)}
 	case k < 95:
 		ts := Base + int64(r.Range(-60, 60))*Hour
-		if r.Chance(1, 10) {
-			ts = []int64{0, -1, 1<<62 + 5, -(1 << 62)}[r.Intn(4)]
+		if r.Chance(1, 6) {
+			// far instants and the borders of the Unix epoch (group spans [-d, 0) and [0, d))
+			ts = []int64{0, -1, 1, -Hour, Hour - 1, Hour, -24 * Hour, 1<<62 + 5, -(1 << 62)}[r.Intn(9)]
 		}
 		return Cmd{K: "csg", DB: p.db, RP: p.rp, TS: ts, Eng: map[bool]int{true: 1, false: 0}[r.Chance(1, 8)]}
 	case k < 100:
@@ -669,6 +670,13 @@ func corpus() []*Case {
 			{K: "cmst", DB: 1, RP: 1, M: 1},
 			{K: "cmst", DB: 1, RP: 1, M: 2},
 			{K: "csg", DB: 1, RP: 1, TS: Base},
+		}),
+		// groups bordering the Unix epoch: a stored 0 is the epoch, not the zero time
+		scripted("epoch-groups-through-snapshot", 1, 6, 0, []Cmd{
+			{K: "cnode", H: 1, T: 1}, {K: "cdb", DB: 1, HasRP: true, RP: 1, D: i64(0), SGD: i64(Hour)},
+			{K: "cmst", DB: 1, RP: 1, M: 1},
+			{K: "csg", DB: 1, RP: 1, TS: -1}, {K: "csg", DB: 1, RP: 1, TS: 0}, {K: "csg", DB: 1, RP: 1, TS: Hour},
+			{K: "csg", DB: 1, RP: 1, TS: -5}, {K: "csg", DB: 1, RP: 1, TS: 5}, {K: "csg", DB: 1, RP: 1, TS: -Hour - 1},
 		}),
 		scripted("snapshot-with-users-streams-cqs", 2, 11, 0, []Cmd{
 			{K: "cnode", H: 1, T: 1}, {K: "cnode", H: 2, T: 2},
